@@ -21,6 +21,8 @@ pub struct Case {
     pub syntax: &'static str,
     pub position: &'static str,
     pub lang: Lang,
+    /// a second, plain one-line `///` doc on the same element: 0 none, 1 before, 2 after the enumerated one
+    pub companion: usize,
 }
 
 pub fn gen(ch: &mut Chooser, max_len: usize) -> Case {
@@ -30,7 +32,8 @@ pub fn gen(ch: &mut Chooser, max_len: usize) -> Case {
     let syntax = *ch.pick("syntax", &SYNTAXES);
     let position = *ch.pick("position", &POSITIONS);
     let lang = *ch.pick("lang", &ALL_LANGS);
-    Case { word, spaced, syntax, position, lang }
+    let companion = ch.choose("companion_line_doc", 3);
+    Case { word, spaced, syntax, position, lang, companion }
 }
 
 pub fn payload(c: &Case) -> String {
@@ -57,7 +60,12 @@ pub fn doc_for(c: &Case) -> Option<Doc> {
 }
 
 pub fn program(position: &str, doc: Option<Doc>) -> File {
-    let docs = |pos: &str| -> Vec<Doc> { if pos == position { doc.clone().into_iter().collect() } else { vec![] } };
+    program_with(position, doc.into_iter().collect())
+}
+
+/// `docs`: the doc attributes of the chosen position, in source order
+pub fn program_with(position: &str, all: Vec<Doc>) -> File {
+    let docs = |pos: &str| -> Vec<Doc> { if pos == position { all.clone() } else { vec![] } };
     let mut s = Item::strukt("Shape", vec![{
         let mut f = Field::new("side", Ty::Prim("u32"));
         f.docs = docs("field");
@@ -117,7 +125,15 @@ pub fn check_case(c: &Case, choices: &[u32], acc: &mut Acc) {
         acc.count("inexpressible_in_rust_syntax", 1);
         return;
     };
-    let file = program(c.position, Some(doc));
+    let plain = Doc::Line("plain companion line".into());
+    let file = program_with(
+        c.position,
+        match c.companion {
+            1 => vec![plain, doc],
+            2 => vec![doc, plain],
+            _ => vec![doc],
+        },
+    );
     let source = render_file(&file);
     if let Err(e) = syn_ok(&source) {
         acc.machinery(format!("renderer produced invalid Rust: {e}\n{source}"));
@@ -239,7 +255,7 @@ pub fn run(args: &[String]) -> i32 {
         report::threads(),
         u64::MAX,
     );
-    merge(&mut rep, "doc_words", accs, &stats, json!({"alphabet": TOKEN_NAMES, "max_word_length": max_len, "separators": ["none", "space"], "rust_syntaxes": SYNTAXES, "positions": POSITIONS, "languages": 6}));
+    merge(&mut rep, "doc_words", accs, &stats, json!({"alphabet": TOKEN_NAMES, "max_word_length": max_len, "separators": ["none", "space"], "companion_doc": ["none", "one-line /// before", "one-line /// after"], "rust_syntaxes": SYNTAXES, "positions": POSITIONS, "languages": 6}));
     require_nonvacuous(&mut rep);
     rep.cov("rule", json!("every word up to the stated length over the doc-token alphabet, joined with or without spaces, wrapped in sentinels DOCB7/DOCE7, written in each Rust doc syntax that can express it, attached to each documentable position, for each language; oracle: the code token stream (comments and docstrings removed) of the output equals that of the same program without docs, tokenizing never ends inside an open comment/string, and both sentinels occur inside comment tokens. non-trivial = the word contains a token other than plain text."));
     rep.assume("the per-language tokenizers of mc/src/extract/lex.rs decide what is a comment / docstring");
